@@ -10,3 +10,5 @@ func verifTraceListener(*OpenFgaDslListener, string, ...string) {}
 func verifObserveTokens(*antlr.CommonTokenStream) {}
 
 func verifTraceDoc(*OpenFgaDslListener, string, antlr.ParserRuleContext) {}
+
+func verifTraceMerge(string, ...string) {}
